@@ -8,12 +8,28 @@ environment variables, random numbers, cwd, host), reads the clock and file meta
 handlers of the three excepted macros (and `file_exists`, whose answer is a function of the input file
 system), creates temporary names only in the driver, and never formats a pointer.
 
-What is NOT proved (see DESIGN.md C12): the fixpoint half (stage 1 ≡ stage 2 ≡ stage 3 behaviour) and
-the absence of address-dependent control flow inside the compiler; both are exercised by the
-correspondence leg of ./check C12 (stage 1/2/3 differential, ASLR on/off, different pid/cwd/time).
+Fixpoint half, static part (second group of theorems): stage 1 (gcc-built) and stage 2 (self-compiled) are two
+executions of the SAME C program by implementations that resolve unspecified behaviour differently (chibicc
+evaluates the right operand / the last argument first).  `Gen/C12AuditGen.lean` (clang-14 typed AST of the nine
+sources, regenerated on every run) lists every expression of chibicc's own source whose operands C11 leaves
+unsequenced or indeterminately sequenced and of which at least two have side effects (or one writes what another
+reads), with the raw effect sets of the operands; every local variable without initializer; every malloc/realloc;
+every relational comparison, subtraction or integer conversion of pointers; every call of an order-unstable
+library function; clang's own diagnostics of uninitialised use / unsequenced modification.  The theorems decide,
+over the whole regenerated lists, that every such site is harmless for a stated reason (`Model/C12Audit.lean`).
+
+What is NOT proved (see DESIGN.md C12): stage 1 ≡ stage 2 ≡ stage 3 behaviour as such (that needs a verified
+semantics of all of C and a model of the whole compiler), the soundness of the effect analysis in
+tools/extract/c12audit.py (type/field based alias classes; trusted, self-tested on every run against planted
+order-dependent expressions), undefined behaviour other than the listed classes (signed overflow, out-of-range
+shifts and conversions in the compiler's own arithmetic: exercised by the differential leg only).  Both are
+exercised by the correspondence leg of ./check C12 (stage 1/2/3 differential on a corpus whose line coverage of
+the compiler is measured, ASLR on/off, different pid/cwd/time).
 -/
 import ChibiVerif.Gen.EnvReadsGen
 import ChibiVerif.Model.EnvDep
+import ChibiVerif.Gen.C12AuditGen
+import ChibiVerif.Model.C12Audit
 
 namespace ChibiVerif.Props.C12
 open ChibiVerif.EnvDep ChibiVerif.Gen.EnvReads
@@ -43,5 +59,75 @@ theorem C12_no_unaudited_source : extraSources = [] := by decide
 -- non-vacuity: the lists are not empty, and the classifier does reject things
 example : libcImports.length > 10 ∧ watchedCallSites.length > 2 := by decide
 example : admissibleSite "time" "codegen.c" "count" = false ∧ admissibleSite "getpid" "main.c" "main" = false := by decide
+
+/-! ## fixpoint half: chibicc's own source does not depend on unspecified order or on indeterminate values -/
+
+section Audit
+open ChibiVerif.C12Audit ChibiVerif.Gen.C12Audit
+
+/-- bit mask of the locations that are visible outside the process -/
+def ioMask : Nat := mask ioLocs
+
+set_option maxRecDepth 100000 in
+/-- Every expression of chibicc's source in which two unsequenced (or indeterminately sequenced) operands both have
+    side effects, or one writes what the other reads, is harmless: no two operands can both exit with a diagnostic,
+    none can exit while another writes to a stream, none writes what another reads or writes, and no side effect
+    inside an operand touches the object the enclosing assignment stores to (`.disjoint`, `.disjointUpToInternal`
+    when an internal-error exit is disregarded) — or the site is in the reviewed table with its reason. -/
+theorem C12_no_unsequenced_effects : ∀ s ∈ sites, (verdict ioMask s).isSome = true := by decide
+
+set_option maxRecDepth 100000 in
+/-- the reviewed table is consulted only where it is needed: no entry matches a site that the effect sets already
+    settle (so an entry cannot silently widen to sites it was not written for) -/
+theorem C12_reviewed_only_where_needed :
+    ∀ s ∈ sites, (reviewed s.file s.fn s.text).isSome = true →
+      (storeFree s && pairsFree (conflict ioMask false) s.ops) = false := by decide
+
+/-- clang's flow analysis finds no use of an uninitialised variable, no unsequenced modification and no
+    suspicious pointer comparison in the nine sources -/
+theorem C12_no_clang_uninit_or_unsequenced_warning : clangWarnings = [] := by decide
+
+set_option maxRecDepth 100000 in
+/-- every local variable declared without an initializer is either a scalar whose address is never taken (then the
+    flow analysis above covers it) or is accounted for: an out-parameter of a named callee, a va_list, a buffer
+    filled by a named libc function, explicitly assigned first, or a dummy list head -/
+theorem C12_uninit_locals_accounted :
+    ∀ v ∈ uninitLocals, (uninitVerdict clangWarnings.isEmpty v).isSome = true := by decide
+
+/-- the only storage obtained without zero fill (malloc / realloc; everything else is calloc) is reviewed -/
+theorem C12_raw_allocs_reviewed : ∀ a ∈ rawAllocs, (reviewedAlloc a.1 a.2.1).isSome = true := by decide
+
+set_option maxRecDepth 100000 in
+/-- pointers are compared for order / subtracted only inside one character buffer (never across allocations, so
+    the results do not depend on the address-space layout) -/
+theorem C12_pointer_order_confined :
+    ∀ p ∈ pointerOps, (p.2.2.2.1 == "char" && (reviewedPointerOp p.1 p.2.1 p.2.2.2.2).isSome) = true := by decide
+
+/-- no pointer value is converted to an integer outside the hash-map self test (no address reaches the output,
+    a hash or a comparison as a number) -/
+theorem C12_no_pointer_to_int : ∀ p ∈ pointerToInt, (p.1 == "hashmap.c" && p.2.1 == "hashmap_test") = true := by decide
+
+/-- no qsort / bsearch / directory enumeration: nothing in the compiler depends on an unstable order -/
+theorem C12_no_unstable_order_call : sortCalls = [] := by decide
+
+-- non-vacuity: the audit sees the whole compiler, finds sites of every class, and the decision does reject
+set_option maxRecDepth 100000 in
+example : analysedFunctions > 250 ∧ sites.length > 10 ∧ uninitLocals.length > 30 ∧ pointerOps.length > 5
+    ∧ mayExitDiag.length > 100 ∧ freshFunctions.length > 30 := by decide
+set_option maxRecDepth 100000 in
+example : (sites.filter (fun s => verdict ioMask s == some .disjoint)).length > 5
+    ∧ (sites.filter (fun s => match verdict ioMask s with | some (.reviewed _) => true | _ => false)).length ≥ 3 := by decide
+-- the defect repaired in /repo 7b517d1, as the audit would list it: both operands of `-` may exit with a diagnostic
+example : verdict 0 ⟨"parse.c", "eval3", 1, "binary -", "eval2(node->lhs, &l1) - eval2(node->rhs, &l2)", [],
+    [⟨true, false, [], [1], []⟩, ⟨true, false, [], [2], []⟩]⟩ = none := by decide
+-- `i = i++`, a write the other operand reads, two writers of one global, output next to a possible exit: all rejected
+example : verdict 0 ⟨"x.c", "f", 1, "assign =", "i = i++", [3], [⟨false, false, [], [], []⟩, ⟨false, false, [3], [3], [3]⟩]⟩ = none := by decide
+example : verdict 0 ⟨"x.c", "f", 1, "binary +", "bump() + rd()", [], [⟨false, false, [5], [5], []⟩, ⟨false, false, [], [5], []⟩]⟩ = none := by decide
+example : verdict 0 ⟨"x.c", "f", 1, "call", "g(bump(), bump())", [], [⟨false, false, [], [], []⟩, ⟨false, false, [5], [5], []⟩, ⟨false, false, [5], [5], []⟩]⟩ = none := by decide
+example : verdict (mask [7]) ⟨"x.c", "f", 1, "binary +", "die() + emit()", [], [⟨true, false, [], [], []⟩, ⟨false, false, [7], [], []⟩]⟩ = none := by decide
+example : uninitVerdict true ("x.c", "f", "buf", "char[8]", true, true) = none
+    ∧ uninitVerdict false ("x.c", "f", "n", "int", false, false) = none := by decide
+
+end Audit
 
 end ChibiVerif.Props.C12
